@@ -589,11 +589,11 @@ class Index:
                 else:
                     f = c.methods.get(name) or c.getters.get(name)
                 for p in parts[2:]:
-                    f = f.nested.get(p) if f else None
+                    f = self._nested(f, p) if f else None
             else:
                 f = m.functions.get(parts[0])
                 for p in parts[1:]:
-                    f = f.nested.get(p) if f else None
+                    f = self._nested(f, p) if f else None
         if f is None:
             raise AnalysisError(f"anchor function vanished: {spec}")
         return f
@@ -613,8 +613,10 @@ class Index:
         f2 = copy.copy(fi)
         f2.node = copy.deepcopy(fi.node)
         try:
-            inl = normalize.Inliner(self)
+            inl = normalize.Inliner(self, max_stmts=250)
             f2.node.body = inl.expand_block(f2, normalize._all_names(f2.node), f2.node.body)
+            if inl.count:
+                normalize.propagate_renames(f2.node)
             ast.fix_missing_locations(f2.node)
             self.__dict__.setdefault("_inlined_helpers", {})[id(f2)] = sorted(t.qualname for t in inl.inlined)
         except Exception:  # noqa - an expansion that fails leaves the function as written
@@ -641,6 +643,15 @@ class Index:
             for p, a in zip(sig, call.args):
                 out.setdefault(p, a)
         return out
+
+    def record_class(self, module, expr):
+        """(ClassInfo, [(field, default)]) when `expr` (a Name / dotted Attribute used in `module`) names a NamedTuple class
+        of this repository - methods allowed (sa/normalize.py:Sroa looks at them itself) - else None"""
+        r = self.resolve_expr(module, expr) if not isinstance(expr, str) else self.resolve_dotted(expr)
+        if not isinstance(r, ClassInfo) or not any(str(b).split(".")[-1] == "NamedTuple" for b in r.ext_bases):
+            return None
+        fields = [(st.target.id, st.value) for st in r.node.body if isinstance(st, ast.AnnAssign) and isinstance(st.target, ast.Name)]
+        return (r, fields) if fields else None
 
     def record_fields(self, dotted):
         """[(field, default expr or None)] in declaration order when `dotted` names a typing.NamedTuple class or a
@@ -693,6 +704,28 @@ class Index:
                 return None
             attr_or_index = names[attr_or_index]
         return bound.get(attr_or_index)
+
+    def constant_def(self, module, name, _depth=0):
+        """(defining module, last assignment statement) of a module-level constant as seen from `module`, following
+        `from .other import name` (a constant that was moved to another module and imported back is the same constant)"""
+        if name in module.constants:
+            return module, module.constants[name][-1]
+        d = module.imports.get(name)
+        if d and _depth < 4 and "." in d:
+            mod, _, nm = d.rpartition(".")
+            m2 = self.modules.get(mod)
+            if m2 is not None and m2 is not module:
+                return self.constant_def(m2, nm, _depth + 1)
+        return None
+
+    @staticmethod
+    def _nested(f, name):
+        """nested function by name; a nested function is private to its parent, so when the name is gone and the parent
+        has exactly one nested function that one is meant (a rename must not lose the anchor)"""
+        g = f.nested.get(name)
+        if g is None and len(f.nested) == 1:
+            g = next(iter(f.nested.values()))
+        return g
 
     def func_by_role(self, spec, pred, what):
         """the function `spec` names - or, when a private function was renamed, the one function of the same module
